@@ -311,6 +311,14 @@ def handle_refuted(ctx, pm, o, known, status, candidate=False):
         replayed = None
     if candidate and not replayed:
         return False
+    from .solve import tainted
+    approx_ = tainted(o)
+    if approx_ and not replayed:
+        # the counter-model assigns a value the executor over-approximates (text of a format, of str(obj) ...): it is
+        # not a behaviour of the code unless it replays -> undecided, the bounded stand-in decides
+        status["undecided"].append(o.name)
+        status["degraded"].append("refutation of %s not believed: it depends on over-approximated value(s) %s" % (o.name, ", ".join(approx_[:3])))
+        return True
     smt_path = None
     for run in r["runs"]:
         if run["verdict"] == "sat":
